@@ -86,10 +86,11 @@ class DistanceMixin:
         """
         if not hasattr(self, 'hashes'):
             raise RuntimeError(DISTANCE_CALCS_NEEDS_CACHE)
-        length = DeepHash.get_key(self.hashes, key=item, default=None, extract_index=1)
+        use_enum_value = getattr(self, 'use_enum_value', False)
+        length = DeepHash.get_key(self.hashes, key=item, default=None, extract_index=1, use_enum_value=use_enum_value)
         if length is None:
             self.__calculate_item_deephash(item)
-            length = DeepHash.get_key(self.hashes, key=item, default=None, extract_index=1)
+            length = DeepHash.get_key(self.hashes, key=item, default=None, extract_index=1, use_enum_value=use_enum_value)
         return length
 
     def __calculate_item_deephash(self: "DistanceProtocol", item: Any) -> None:
